@@ -32,7 +32,8 @@ def mkrec(A, B, i, d, A2=None):
     if d == "A2":
         return A2(i, "a" if i % 2 == 1 else "b", "e", _source="orig", _generated=gen.GEN)
     if d == "A":
-        return A("a" if i % 2 == 1 else "b", i, dt.datetime(2020, 1, i, tzinfo=dt.timezone.utc), dt.datetime(2021, 2, i, tzinfo=dt.timezone.utc), _source="orig", _generated=gen.GEN)
+        t2 = None if i % 5 == 0 else dt.datetime(2021, 2, i, tzinfo=dt.timezone.utc)       # record 5 has a timestamp field WITHOUT a value
+        return A("a" if i % 2 == 1 else "b", i, dt.datetime(2020, 1, i, tzinfo=dt.timezone.utc), t2, _source="orig", _generated=gen.GEN)
     return B(i, "y" if i % 3 == 0 else "x", _source="orig", _generated=gen.GEN)
 
 
@@ -45,7 +46,7 @@ def src_choices(k):
 
 def universe(rnd, n):
     lays = [list(x) for x in itertools.product(src_choices(1), src_choices(2), src_choices(3))]
-    fields = [[], ["n"], ["other", "n", "bogus"], ["t2", "n", "t1"]]
+    fields = [[], ["n"], ["other", "n", "bogus"], ["t2", "n", "t1"], ["other"], ["extra", "t1"]]      # the last two leave NO field for some record type
     excls = [[], ["s"], ["t1"]]
     out = []
     for _ in range(n):
@@ -121,12 +122,14 @@ def _check_values(rec):
         ok &= v["s"] == ("a" if i % 2 == 1 else "b") if i else True
     if "other" in v and i:
         ok &= v["other"] == ("y" if i % 3 == 0 else "x")
+    T2 = lambda i: None if i % 5 == 0 else ("dt", 2021, 2, i, 0, 0, 0, 0)
+    same = lambda got, exp: got is None if exp is None else (got is not None and tuple(got) == exp)
     if rec["tsd"] != "none" and i:
-        exp = ("dt", 2020, 1, i, 0, 0, 0, 0) if rec["tsd"] == "t1" else ("dt", 2021, 2, i, 0, 0, 0, 0)
-        ok &= tuple(rec["_ts"]) == exp
-    for f, exp in (("t1", lambda i: ("dt", 2020, 1, i, 0, 0, 0, 0)), ("t2", lambda i: ("dt", 2021, 2, i, 0, 0, 0, 0))):
+        exp = ("dt", 2020, 1, i, 0, 0, 0, 0) if rec["tsd"] == "t1" else T2(i)
+        ok &= same(rec["_ts"], exp)
+    for f, exp in (("t1", lambda i: ("dt", 2020, 1, i, 0, 0, 0, 0)), ("t2", T2)):
         if f in v and i:
-            ok &= tuple(v[f]) == exp(i)
+            ok &= same(v[f], exp(i))
     return bool(ok)
 
 
@@ -154,6 +157,38 @@ def run_rdump(files, lay, cfg, mode, compiled, tmp):
     if not compiled:
         argv += ["-n"]
     case = {"srcs": lay, "cfg": cfg, "mode": mode, "compiled": compiled, "raised": False, "exc": "none", "parts": [], "values_ok": True}
+    if mode in ("wjson", "wcsv"):
+        # -w with a bare path: the extension selects the writer (json lines with descriptors / csv), whatever other options are given
+        out = os.path.join(tmp, "out.json" if mode == "wjson" else "out.csv")
+        argv += ["-w", out]
+        try:
+            rdump.main(argv)
+        except BaseException as e:  # noqa
+            if isinstance(e, KeyboardInterrupt):
+                raise
+            case["raised"], case["exc"] = True, type(e).__name__ + ":" + str(e)[:80]
+        recs = []
+        try:
+            text = open(out, "rb").read().decode("utf-8", "surrogateescape") if os.path.exists(out) else ""
+            if mode == "wjson":
+                for line in text.splitlines():
+                    o = json.loads(line)
+                    if o.get("_type") != "record":
+                        continue
+                    names = [k for k in o if not k.startswith("_")]
+                    recs.append({"id": o.get("n", 0) or 0, "d": "-", "fields": names, "src": "-", "cls": "-", "tsd": o.get("ts_description") or "none"})
+            else:
+                hdr = None
+                for row in csv.reader(io.StringIO(text, newline="")):
+                    if "_source" in row:
+                        hdr = row
+                        continue
+                    i = int(row[hdr.index("n")]) if hdr and "n" in hdr and row[hdr.index("n")].isdigit() else 0
+                    recs.append({"id": i, "d": "-", "fields": [], "src": "-", "cls": "-", "tsd": "-"})
+        except Exception as e:
+            case["raised"], case["exc"] = True, "unparsable output: " + type(e).__name__ + ":" + str(e)[:60]
+        case["parts"] = [recs]
+        return case
     if mode == "stream":
         out = os.path.join(tmp, "out.records")
         argv += ["-w", out]
@@ -252,9 +287,13 @@ def run(tier):
         modes = [("stream", True), ("stream", False)]
         if k % 3 == 0:
             modes += [(m, k % 2 == 0) for m in ("jsonlines", "csv", "line", "text")]
+        if k % 3 == 2:
+            modes += [("wjson", k % 2 == 0), ("wcsv", k % 2 == 1)]
         if k % 3 == 1:
             modes += [("list", k % 2 == 0)]
         for mode, compiled in modes:
+            if mode in ("csv", "wcsv") and cfg["fields"] in (["other"], ["extra", "t1"]):
+                continue      # rows without any column cannot be told from blank lines by the CSV parser of this harness
             c = run_rdump(files, lay, cfg if mode == "stream" else dict(cfg, split=0, **({"mts": False} if mode == "list" else {})), mode, compiled, tmp)
             cases.append(c)
             ctx.case(json.dumps([[s["kind"], s["keep"]] for s in lay]) + json.dumps(cfg, sort_keys=True) + mode + str(compiled))
